@@ -17,6 +17,7 @@ from .. import gen
 from ..engine import generic_shrink
 from ..compare import compare_texts, tied_groups, union_ties
 from ..shexread import Evidence
+from ..world import target_kwargs
 from .common import (Sim, SimStore, run_once, violation, finish, shape_stats, set_knob, NEVER_FLUSH, components,
                      _contradiction_check_applies, sha)
 
@@ -88,7 +89,7 @@ def generate(rng, tier, index):
 
 def _kw(scen, **extra):
     kw = {}
-    kw.update(copy.deepcopy(scen["target"]))
+    kw.update(target_kwargs(scen["target"]))
     kw.update(copy.deepcopy(scen["options"]))
     kw["namespaces_dict"] = copy.deepcopy(scen["ns"])
     kw.update(extra)
